@@ -419,3 +419,75 @@ Proof.
   intros fill rows sep Hne H. rewrite join_spec, split_spec. unfold s_join.
   destruct rows as [|r rows]; [congruence|]. apply split_join_gen. exact H.
 Qed.
+
+(* ================= split with a list of separators (any predicate on characters) ================= *)
+Fixpoint seg_lens_p (p : Z -> bool) (s : list Z) : list Z :=
+  match s with
+  | [] => [1]
+  | x :: r => if p x then 1 :: seg_lens_p p r
+              else match seg_lens_p p r with l0 :: ls => (l0 + 1) :: ls | [] => [] end
+  end.
+Lemma seg_lens_p_pos p : forall s, seg_lens_p p s <> [] /\ Forall (fun l => 1 <= l) (seg_lens_p p s).
+Proof.
+  induction s as [|x r [IH1 IH2]]; simpl.
+  - split; [discriminate|repeat constructor; lia].
+  - destruct (p x).
+    + split; [discriminate|constructor; [lia|assumption]].
+    + destruct (seg_lens_p p r) as [|l0 ls]; [congruence|].
+      inversion IH2; subst. split; [discriminate|constructor; [lia|assumption]].
+Qed.
+Lemma split_lens_p p : forall s,
+  diff (-1 :: flatnonzero_from 0 (map p s ++ [true])) = seg_lens_p p s.
+Proof.
+  induction s as [|x r IH]; [reflexivity|].
+  simpl map. simpl app. simpl flatnonzero_from.
+  rewrite (flatnonzero_from_succ _ 0).
+  set (idx := flatnonzero_from 0 (map p r ++ [true])) in *.
+  simpl seg_lens_p. destruct (p x).
+  - simpl app. change (diff (-1 :: 0 :: map (fun k => k + 1) idx)) with ((0 - -1) :: diff (0 :: map (fun k => k + 1) idx)).
+    f_equal. rewrite <- IH. change (0 :: map (fun k => k + 1) idx) with (map (fun k => k + 1) (-1 :: idx)).
+    apply diff_shift.
+  - simpl app. rewrite <- IH. destruct idx as [|j0 js]; [reflexivity|].
+    simpl map. change (diff (-1 :: j0 + 1 :: map (fun k => k + 1) js))
+      with ((j0 + 1 - -1) :: diff (map (fun k => k + 1) (j0 :: js))).
+    rewrite diff_shift. simpl diff. f_equal; try lia; try reflexivity.
+Qed.
+Lemma split_rows_p p z : forall s,
+  map (@removelast Z) (rows_by_lens (s ++ [z]) (seg_lens_p p s)) = split_by p s.
+Proof.
+  induction s as [|x r IH]; [reflexivity|].
+  simpl seg_lens_p. simpl split_by. destruct (p x) eqn:Hx.
+  - simpl. rewrite IH. reflexivity.
+  - destruct (seg_lens_p_pos p r) as [Hne Hpos].
+    destruct (seg_lens_p p r) as [|l0 ls] eqn:Hs; [congruence|].
+    inversion Hpos as [|? ? Hl0 _]; subst.
+    rewrite <- IH. simpl rows_by_lens.
+    replace (Z.to_nat (l0 + 1)) with (S (Z.to_nat l0)) by lia.
+    simpl app. simpl firstn. simpl skipn. simpl map. f_equal.
+    destruct (Z.to_nat l0) as [|n0] eqn:Hn; [lia|].
+    destruct (r ++ [z]) as [|y d] eqn:Hd; [destruct r; discriminate|]. reflexivity.
+Qed.
+Theorem split_p_spec : forall p s, m_split_p p s = split_by p s.
+Proof.
+  intros p s. unfold m_split_p, m_split_first_len. rewrite map_app. cbn [map]. rewrite set_last_app.
+  unfold flatnonzero.
+  set (idx := flatnonzero_from 0 (map p s ++ [true])).
+  assert (Hl : match diff (0 :: idx) with _ :: r => (nthZ idx 0 + 1) :: r | [] => [] end = diff (-1 :: idx)).
+  { destruct idx as [|i0 rest]; [reflexivity|]. simpl. unfold nthZ. simpl. f_equal; try lia. }
+  rewrite Hl. unfold idx. rewrite split_lens_p. apply split_rows_p.
+Qed.
+(* the order in which the separators are listed, and repetitions, do not matter: only membership does *)
+Theorem split_list_spec : forall s seps, m_split_l s seps = split_by (fun x => memb x seps) s.
+Proof. intros s seps. unfold m_split_l. apply split_p_spec. Qed.
+Lemma split_by_ext p q : (forall x, p x = q x) -> forall s, split_by p s = split_by q s.
+Proof. intros H. induction s as [|x r IH]; [reflexivity|]. simpl. rewrite H, IH. reflexivity. Qed.
+Theorem split_by_single : forall sep s, split_by (fun x => memb x [sep]) s = split_on sep s.
+Proof.
+  intros sep. induction s as [|x r IH]; [reflexivity|].
+  change (split_by (fun y => memb y [sep]) (x :: r))
+    with (let rest := split_by (fun y => memb y [sep]) r in
+          if memb x [sep] then [] :: rest else match rest with h :: t => (x :: h) :: t | [] => [[x]] end).
+  cbv zeta. rewrite IH.
+  replace (memb x [sep]) with (x =? sep) by (unfold memb; simpl; rewrite orb_false_r; reflexivity).
+  reflexivity.
+Qed.
